@@ -199,7 +199,7 @@ pub fn check(case: &Case, ctx: &mut Ctx) {
                         last[ki] = Last::PutOk(v)
                     }
                     Err(e) => {
-                        ctx.fail("put_rejected_unexpectedly", format!("op {idx}: put of key {ki} below capacity returned {e}"));
+                        ctx.precondition_failed("put_rejected_unexpectedly", format!("op {idx}: put of key {ki} below capacity returned {e}"));
                     }
                 }
             }
